@@ -3,14 +3,16 @@ from common import *
 
 CLAIMED = True
 LEVEL = 'proof'
-LEVEL_TEXT = ('Proof: 21 Coq theorems. Thin lines (12, model coq/Model/Line.v of BresenhamParameters::new / Bresenham::next / Points), '
+LEVEL_TEXT = ('Proof: 24 Coq theorems. Thin lines (12, model coq/Model/Line.v of BresenhamParameters::new / Bresenham::next / Points), '
               'for ALL lines with coordinates within +-2^28: first point = start, last = end, max(|dx|,|dy|)+1 points, each step is one '
               'pixel along the major axis and 0 or 1 along the minor axis, every point within half a pixel of the ideal line '
               '(2|cross| <= dmaj; 4 cross^2 <= dx^2+dy^2; projection inside the segment), monotone, closed form, translation, no i32 '
               'overflow. Stroked lines (9, model coq/Model/Thickline.v of next_all/previous_all, ParallelsIterator, ThickPoints, '
               'StyledPixelsIterator), for ALL lines and widths: width 1 = points() in order, width 0 / no colour draws nothing, every '
               'stroke of width >= 1 starts with exactly points() (contains the thin line), ParallelsIterator stops after <= 3w+2 '
-              'parallels (termination, pixel count bound), translation equivariance. No-duplicate, distance <= w/2+2.5, <= 1 px beyond '
+              'parallels (termination, pixel count bound), translation equivariance, NO PIXEL TWICE (C17_thick_no_duplicate, via disjoint '
+              'cross-product bands of the parallels), distance <= 3w+2.5 (coarse). The bound w/2+2.5 of the property is refuted from width 34 on '
+              '(C17_thick_distance_refuted, finding K17_wide_stroke). Distance <= w/2+2.5, <= 1 px beyond '
               'the ends, >= w-1 wide at the middle: proved by computation in Coq for every line with |dx|,|dy| <= 14 anywhere in the plane '
               '(= all end point pairs of the grid [-7,7]^2 and their translates) x widths 0..9 (C17_thick_grid_partial); beyond that '
               'domain these four clauses are searched on the implementation. Both models are tied to the code by running the extracted '
@@ -26,15 +28,17 @@ RULE = ('correspondence: Line::points() vs the extracted model for all lines wit
         'all end point pairs in [-3,3]^2 / [-5,5]^2 x 7 widths, random lines of length 10..2000 x widths up to 40. '
         'non-trivial = model result non-empty; distinct = distinct case lines. '
         'search p_line / p_thick: every clause of the property evaluated in exact i128 arithmetic on the real iterators; p_thick on '
-        'every delta of the grid [-R,R]^2 (R=7 quick, 12 thorough) x every width 0..9/12 and on random lines up to 300 long x widths up to 33.')
+        'every delta of the grid [-R,R]^2 (R=7 quick, 12 thorough) x every width 0..9/12 and on random lines up to 300 long x widths up to 33, plus long wide strokes (length 240..1000 x width 30..64).')
 EXHAUSTIVE = {'quick': False, 'thorough': False}
 ASSUMPTIONS = ['line_ok: all four coordinates within +-2^28 (so that 2*|delta| and the error accumulator fit i32); '
                'beyond it the implementation overflows (panic in debug, wrap in release) and C17 makes no claim',
                'stroke widths are u32 (0 <= w); widths above i32::MAX saturate (modelled)']
 TRUSTED = ['modelled, not verified: Point +/-/abs as unbounded Z operations, `as u32` of a non-negative i32, az::SaturatingAs u32->i32, '
            'i32 `/ 2` of a non-negative value as Z.quot']
-PARTIAL = ['C17_thick_grid_partial (full statement: thick_ok l w -- no duplicate pixel, distance <= w/2+2.5, <= 1 px beyond the ends, '
-           '>= w-1 wide at the middle -- for ALL lines and widths; proved for |dx|,|dy| <= 14, w <= 9 by computation)']
+PARTIAL = ['C17_thick_distance_partial (full statement: distance <= w/2 + 2.5 for all lines and widths < 34; proved: <= 3w + 2.5 for all; '
+           'false from width 34 on: finding K17_wide_stroke)',
+           'C17_thick_grid_partial (full statement: thick_ok l w -- distance <= w/2+2.5, <= 1 px beyond the ends, '
+           '>= w-1 wide at the middle (and no duplicate pixel, which C17_thick_no_duplicate proves in general) -- for ALL lines and widths < 34; proved for |dx|,|dy| <= 14, w <= 9 by computation)']
 
 
 def grid_lines(R):
@@ -124,3 +128,7 @@ def search(tier, rng):
             yield J('p_thick', *l, w)
     for _ in range(3000 if tier == 'quick' else 40000):
         yield J('p_thick', *long_line(rng, rng.choice([10, 30, 80, 300])), rng.choice([1, 2, 3, 4, 5, 6, 7, 9, 12, 20, 33]))
+    # long AND wide (stroke * length beyond 2^14.5: the accumulator square leaves i32, seeded C17-A): few but large cases
+    yield J('p_thick', 0, 100, 479, 100, 50)
+    for _ in range(24 if tier == 'quick' else 400):
+        yield J('p_thick', *long_line(rng, rng.choice([480, 700, 1000])), rng.choice([30, 40, 50, 64]))
